@@ -26,11 +26,13 @@ func TestDev(t *testing.T) {
 		for i := 0; i < n; i++ {
 			r := sim.Exec(C11, "C11", "quick", uint64(i)*7919+1, sim.Options{Bubble: true, PanicIsViolation: true})
 			if r.Machinery != "" {
-				t.Fatalf("seed %d machinery: %s\n%v", r.Seed, r.Machinery, r.Events)
+				fmt.Printf("seed %d machinery: %s\n%v\n", r.Seed, r.Machinery, r.Events)
+				os.Exit(1)
 			}
 			r2 := sim.ExecTape(C11, "C11", "quick", r.Seed, r.Tape, sim.Options{Bubble: true, PanicIsViolation: true})
 			if r2.TraceHash != r.TraceHash {
-				t.Fatalf("seed %d: replay hash differs\n%v\n%v", r.Seed, r.Events, r2.Events)
+				fmt.Printf("seed %d: replay hash differs\n%v\n%v\n", r.Seed, r.Events, r2.Events)
+				os.Exit(1)
 			}
 			for k, v := range r.Probes {
 				probes[k] += v
